@@ -312,6 +312,16 @@ def c05_wire(run, tier):
             lines = ws.files[p].text().split("\n")
             if re.search(r"def\s+%s\s*\(" % re.escape(name), lines[l] if l < len(lines) else ""):
                 continue                      # a self-named parameter: hover shows the overridden fixture
+            # … also when the signature is spread over several lines (the parameter stands on a later line)
+            try:
+                tree = pyast_mod.parse(ws.files[p].text())
+            except SyntaxError:
+                tree = None
+            if tree is not None and any(
+                    isinstance(n, (pyast_mod.FunctionDef, pyast_mod.AsyncFunctionDef)) and n.name == name and
+                    any(a_.arg == name and a_.lineno - 1 == l for a_ in n.args.posonlyargs + n.args.args + n.args.kwonlyargs)
+                    for n in pyast_mod.walk(tree)):
+                continue
             for doc in docs_by_file.get(p, {}).get(name, ()):
                 ncomp += 1
                 if doc != a:
